@@ -752,7 +752,14 @@ static void mut_edit(const uint8_t *p, size_t n, vrng_t *r, rc_buf_t *out, char 
   rc_edit_free(&e);
   if (nfp == 0 || kind >= 90) { havoc(out, r); set_desc(desc, "edit-bytes", "havoc"); }
   else if (kind >= 82) { btrunc(out, fp[rU(r, (uint32_t)nfp)].off + rU(r, 3)); set_desc(desc, "edit-truncate", "at-field"); }
-  else mut_field(out, &fp[rU(r, (uint32_t)nfp)], r, "edit", desc, fs);
+  else {
+    int pickf = (int)rU(r, (uint32_t)nfp), i, n = 0;
+    if (rP(r, 150)) {   /* levels index fixed-size arrays further down: give them extra weight */
+      for (i = 0; i < nfp; i++) if (fp[i].kind == FK_LEVEL) n++;
+      if (n > 0) { n = (int)rU(r, (uint32_t)n); for (i = 0; i < nfp; i++) if (fp[i].kind == FK_LEVEL && n-- == 0) pickf = i; }
+    }
+    mut_field(out, &fp[pickf], r, "edit", desc, fs);
+  }
 }
 
 /* mutate a VALID write batch */
@@ -837,7 +844,7 @@ static void build_extra_edit(vrng_t *r, const dbinfo_t *info, rc_buf_t *out, cha
   rc_buf_t k1, k2;
   pick_t pk;
   dbinfo_t fake;
-  int kind = (int)rU(r, 10), lvl;
+  int kind = (int)rU(r, 12), lvl;
   const finfo_t *f;
   memset(&e, 0, sizeof(e));
   memset(add, 0, sizeof(add));
@@ -872,10 +879,16 @@ static void build_extra_edit(vrng_t *r, const dbinfo_t *info, rc_buf_t *out, cha
       add[0].number = rP(r, 500) ? 0 : ~(uint64_t)0; add[0].level = (int)rU(r, 7);
       set_desc(desc, "manifest-file-number", add[0].number ? "2^64-1" : "0");
       break;
-    case 3:   /* last level */
+    case 3: case 10: case 11:   /* last level and beyond */
       e.deleted[0].level = f->level; e.deleted[0].number = f->number; e.ndeleted = 1;
-      add[0].level = 6;
-      set_desc(desc, "manifest-level", "6");
+      {
+        static const int lv[] = {6, 6, 7, 8, 127, 0x7fffffff};
+        char c[16];
+        add[0].level = lv[rU(r, 6)];
+        if (rP(r, 300)) { e.nadded = 0; e.deleted[0].level = add[0].level; }      /* bad level in a deletion only */
+        snprintf(c, sizeof(c), "%d", add[0].level);
+        set_desc(desc, "manifest-level", c);
+      }
       break;
     case 4:   /* same file present in two levels / overlapping in a sorted level */
       lvl = (f->level + 1 + (int)rU(r, 5)) % 7;
@@ -958,7 +971,7 @@ static int mut_log(const rlog_t *L, const rlog_t *other, const dbinfo_t *info, v
     snprintf(field, sizeof(field), "%s-payload", pf);
     set_desc(desc, field, "havoc-reframed");
     cls = CL_HAVOC;
-  } else if (kind < 50 && L->is_manifest) {          /* extra edit naming wrong files */
+  } else if (kind < 56 && L->is_manifest) {          /* extra edit naming wrong files */
     build_extra_edit(r, info, &tmp, desc);
     recs[n] = &tmp;
     frame_records(recs, n + 1, out);
@@ -2108,13 +2121,14 @@ static void run_snappy(const case_t *c, vrng_t *r) {
   size_t n = 0;
   (void)r;
   if (snappy_decode_size(&n, p, c->in.len)) {
+    ENTER();
     /* every input byte yields at most 64/3 output bytes (a 3-byte copy-2 element emits <= 64),
        so a correct decoder never writes past min(n, 22 * len + 64); the full-size allocation
        of the real caller is exercised through ldb_read_block (readblock / table / db) */
     size_t bound = c->in.len * 22 + 64, cap = n < bound ? n : bound;
     uint8_t *z = malloc(cap ? cap : 1);
     if (z != NULL) {
-      if (snappy_decode(z, p, c->in.len)) { ENTER(); shm->x[X_SNAPPY_OK]++; touch(z, cap); }
+      if (snappy_decode(z, p, c->in.len)) { shm->x[X_SNAPPY_OK]++; touch(z, cap); }
       free(z);
     }
   }
@@ -2827,11 +2841,11 @@ static void run_db_case(int64_t idx, vrng_t *r) {
   db_options(&o, c.t, paranoid, use_mmap, variant ^ 2);
   rc = ldb_repair(dir, &o);
   if (rc == LDB_OK) {
-    ENTER(); shm->x[X_DB_REPAIR_OK]++;
+    shm->x[X_DB_REPAIR_OK]++;
     PHASE("open after repair");
     db = NULL;
     rc = ldb_open(dir, &o, &db);
-    if (rc == LDB_OK) { shm->x[X_DB_REOPEN_OK]++; db_scan(db, r, verify); PHASE("close after repair"); ldb_close(db); }
+    if (rc == LDB_OK) { ENTER(); shm->x[X_DB_REOPEN_OK]++; db_scan(db, r, verify); PHASE("close after repair"); ldb_close(db); }
     else shm->x[X_DB_REOPEN_FAIL]++;
   } else shm->x[X_DB_REPAIR_FAIL]++;
   if (!dump_first) db_dump_all(dir);
@@ -2881,6 +2895,11 @@ static void child_run(int64_t first, int64_t end, long cpu, long wall) {
     g_entered = 0;
     shm->phase[0] = 0;
     arm_timers(cpu, wall);
+    if (getenv("VERIF_FZ_SPIN") && atoll(getenv("VERIF_FZ_SPIN")) == i) {   /* self-test of the CPU guard */
+      shm->cur_target = g_mode_db ? T_DB : T_BLOCK; shm->in_len = 0;
+      __atomic_store_n(&shm->cur_case, i, __ATOMIC_SEQ_CST);
+      for (;;) g_sink++;
+    }
     if (g_mode_db) {
       shm->cur_target = T_DB; shm->cur_class = CL_MUTATE; shm->desc[0] = 0; shm->in_len = 0;
       __atomic_store_n(&shm->cur_case, i, __ATOMIC_SEQ_CST);
@@ -3033,6 +3052,13 @@ static void report_death(int64_t k, const death_t *d, const char *kind_override)
   for (i = 0; i < hl; i++) sprintf(hexbuf + 2 * i, "%02x", shm->in[i]);
   hexbuf[2 * hl] = 0;
   g_nwitness++;
+  if (g_mode_db) {
+    char from[900], to[900];
+    snprintf(from, sizeof(from), "%s/case-%lld", g_work, (long long)k);
+    snprintf(to, sizeof(to), "%s/witness-db-%lld.dir", g_dir, (long long)k);
+    vh_rm_rf(to);
+    if (rename(from, to) != 0) vh_note("could not keep %s: %s", from, strerror(errno));
+  }
   vh_violation("C18", key,
                "%s on case %lld (seed %llu, mode %s%s%s): target=%s class=%s mutation=[%s] phase=[%s] input_len=%zu witness=%s "
                "replay: --seed %llu --mode %s --first %lld --count 1%s%s ; report: %s ; input[0..%zu)=%s",
